@@ -691,6 +691,44 @@ func (w *vc04World) op(tok string) string {
 			return "none"
 		}
 		return "synced:u" + strconv.Itoa(w.register(s, false))
+	case "J":
+		// J/<sid>/<mac>/<sv>/<cv>/<rmac>: the HA restore of one checkpoint concurrently with one PADR of <rmac> (same VLANs);
+		// the id is chosen by the generator so that both orders give the same result.  Run under -race by hand.
+		sid, mac, sv, cv, rmac := vc04U16(p[1]), vc04Hex(p[2]), vc04U16(p[3]), vc04U16(p[4]), vc04Hex(p[5])
+		name := fmt.Sprintf("h%d", len(w.uid)+w.hcount)
+		w.hcount++
+		cp := &hapb.SessionCheckpoint{SessionId: name, SrgName: "srg1", Mac: mac, OuterVlan: uint32(sv), InnerVlan: uint32(cv),
+			AaaSessionId: "a" + name, PppoeSessionId: uint32(sid)}
+		raw, _ := proto.Marshal(cp)
+		c.opdb.Put(context.Background(), opdb.NamespaceHASyncedPPPoE, name, raw)
+		c.vpp = vc04SB{}
+		pk := w.pkt(rmac, sv, cv, layers.PPPoECodePADR, 0, vc04Tag(0x0104, vc04Forge(w.secret, rmac, sv, cv, uint32(w.now))))
+		var wg sync.WaitGroup
+		wg.Add(2)
+		go func() { defer wg.Done(); c.restoreFromHASync("srg1") }()
+		go func() { defer wg.Done(); c.handlePADR(pk) }()
+		wg.Wait()
+		c.vpp = nil
+		c.opdb.Delete(context.Background(), opdb.NamespaceHASyncedPPPoE, name)
+		eg, _ := w.bus.take()
+		pads := "none"
+		for _, e := range eg {
+			if e.code == byte(layers.PPPoECodePADS) {
+				pads = strconv.Itoa(int(e.sid))
+			}
+		}
+		res := "none"
+		c.sessionMu.RLock()
+		hs := c.sessionIDIndex[name]
+		rs := c.sessions[w.key(rmac, sv, cv)]
+		c.sessionMu.RUnlock()
+		if hs != nil {
+			res = "u" + strconv.Itoa(w.register(hs, false))
+		}
+		if rs != nil && pads != "none" {
+			pads += ":u" + strconv.Itoa(w.register(rs, false))
+		}
+		return "join:" + res + ":" + pads
 	case "K":
 		// K/<mac>/<sv.cv>,<sv.cv>,...: which of these tuples does sessionKey render identically (class ids)
 		var keys []string
